@@ -802,6 +802,12 @@ class Tokenizer:
                 self.append_token()
             if allow_last_missing_semicolon:
                 self.append_keywords()
+            elif not self.keywords:
+                # The last token was a macro that expands to nothing
+                # (or a macro factory without its arguments)
+                raise JMCSyntaxException(
+                    "Expected semicolon(;)", None, self, display_col_length=False
+                )
             else:
                 raise JMCSyntaxException(
                     "Expected semicolon(;)", self.keywords[-1], self, col_length=True
